@@ -94,6 +94,7 @@ class StreamSpec:
         self.finished = False  # ... and returned normally
         self.abort_calls = 0  # how often the queue ran its abort callback
         self.close_started = 0  # ... and how often the (slow) closing it returned began to run
+        self.self_failed = False  # the source raised by itself (the producer cleans up on its own)
         self.item_work = {}  # index -> WorkSpec
         self.label = f"S{sid}"
         self.obj = None
@@ -543,7 +544,9 @@ class World2:
             # sub-executor
             try:
                 return await ext.fut
-            except (Exception, asyncio.CancelledError):
+            except (Exception, asyncio.CancelledError) as exc:
+                if not isinstance(exc, asyncio.CancelledError):
+                    s.self_failed = True  # the producer fails by itself and cleans up on its own
                 if work is not None and (work.tasks or work.streams):
                     self.nested_aborts_by_producer += 1
                     sub = _SubExecutorStandIn(self, work)
@@ -567,6 +570,7 @@ class World2:
                     await self.sim.external(f"src:{s.sid}:{i}", "anext", ("value", None)).fut
                 failing = s.fail_by_item and i == s.fail_after
                 if s.fail_after is not None and i == s.fail_after and not failing:
+                    s.self_failed = True
                     raise GraphQLError(f"S{s.sid} failed")
                 work = self.build(s.item_work[i]) if i in s.item_work else None
                 result = WorkResult(StreamItemValue(i, None), work)
@@ -590,6 +594,7 @@ class World2:
                 if behind:
                     self.pushed_behind_failure += 1
             if s.fail_after is not None and s.fail_after >= s.n_items:
+                s.self_failed = True
                 raise GraphQLError(f"S{s.sid} failed")
 
         return produce
